@@ -32,34 +32,35 @@ type Obligation struct {
 }
 
 type Exec struct {
-	eng          *Engine
-	topFn        *ssa.Function
-	topC         *FuncContract
-	assumes      []*Term
-	assumeSeen   map[int]bool
-	obligations  []*Obligation
-	warnings     []string
-	warnSeen     map[string]bool
-	safety       bool
-	inlineDepth  int
-	nameCount    map[string]int
-	abstracted   map[string]bool // callees abstracted (havoc)
-	inlined      map[string]bool
-	usedContr    map[string]bool
-	callBindings []Value                 // closure bindings of the call whose contract is being applied
-	callFn       *ssa.Function           // and its function
-	hc           map[*Term]heapConstInfo // heap-constant registry of this run (names are reused across functions)
-	topFrame     *Frame                  // frame of the function under verification (entry state and arguments: replay)
-	pointSetHit  map[int]bool
-	assertHit    map[int]bool    // program-point assertions of the top contract that met their call
-	assumedTerm  map[string]bool // callees under contract assumed to terminate (no `terminates` of their own)
-	budget       int
-	inSpec       int
-	usedInv      map[string]bool
-	readKeys     map[string]bool
-	specMemo     map[string]Value
-	readLog      *[]heapRead
-	reveal       map[string]bool
+	eng           *Engine
+	topFn         *ssa.Function
+	topC          *FuncContract
+	assumes       []*Term
+	assumeSeen    map[int]bool
+	obligations   []*Obligation
+	warnings      []string
+	warnSeen      map[string]bool
+	safety        bool
+	inlineDepth   int
+	nameCount     map[string]int
+	abstracted    map[string]bool // callees abstracted (havoc)
+	inlined       map[string]bool
+	usedContr     map[string]bool
+	callBindings  []Value                 // closure bindings of the call whose contract is being applied
+	callFn        *ssa.Function           // and its function
+	hc            map[*Term]heapConstInfo // heap-constant registry of this run (names are reused across functions)
+	paramsCurrent bool                    // program-point assertions and ghost updates: a reassigned parameter means its current value
+	topFrame      *Frame                  // frame of the function under verification (entry state and arguments: replay)
+	pointSetHit   map[int]bool
+	assertHit     map[int]bool    // program-point assertions of the top contract that met their call
+	assumedTerm   map[string]bool // callees under contract assumed to terminate (no `terminates` of their own)
+	budget        int
+	inSpec        int
+	usedInv       map[string]bool
+	readKeys      map[string]bool
+	specMemo      map[string]Value
+	readLog       *[]heapRead
+	reveal        map[string]bool
 }
 
 type deferred struct {
